@@ -46,6 +46,11 @@ MultipartBody == Tk("body", "--b1\r\nContent-Disposition: form-data; name=\"f\"\
 
 Seeds == {
   [id |-> "get_file",    doc |-> Request("GET", "/a.txt", "HTTP/1.1", <<Host>>, NoBody)],
+  [id |-> "get_style",   doc |-> Request("GET", "/style.css", "HTTP/1.1", <<Host>>, NoBody)],
+  [id |-> "get_script",  doc |-> Request("GET", "/script.js", "HTTP/1.1", <<Host>>, NoBody)],
+  [id |-> "get_favicon", doc |-> Request("GET", "/favicon.svg", "HTTP/1.1", <<Host>>, NoBody)],
+  [id |-> "get_index_html", doc |-> Request("GET", "/index.html", "HTTP/1.1", <<Host>>, NoBody)],
+  [id |-> "get_404_html", doc |-> Request("GET", "/404.html", "HTTP/1.1", <<Host>>, NoBody)],
   [id |-> "get_root",    doc |-> Request("GET", "/", "HTTP/1.1", <<Host>>, NoBody)],
   [id |-> "get_dir",     doc |-> Request("GET", "/docs/", "HTTP/1.1", <<Host>>, NoBody)],
   [id |-> "get_missing", doc |-> Request("GET", "/nx.html", "HTTP/1.1", <<Host>>, NoBody)],
